@@ -124,9 +124,10 @@ def PingAnswered (b : IrcBehaviour) : Prop :=
   ∀ h m a rest, asciiLower m.command = "ping".toList → m.args = a :: rest → C11.validArg a = true →
     C05.format ⟨[], "PONG".toList, [a], []⟩ ∈ b.react h m
 
-/-- **A later PING is answered**: after *any* history that leaves the connection quiet (connected,
-nothing scripted to fail, no partial line buffered), a line that parses as `PING a` and one loop pass
-put `PONG :a\r\n` on the wire (after whatever was still pending), and the connection stays quiet. -/
+/-- **A later PING is answered**: after *any* history — including server-requested and error-induced
+reconnects — that leaves the (current) connection quiet (connected, nothing scripted to fail, no
+partial line buffered), a line that parses as `PING a` and one loop pass put `PONG :a\r\n` on the
+wire (after whatever was still pending), and the connection stays quiet. -/
 theorem later_ping_answered (b : IrcBehaviour) (hb : OnlyExceptions b) (hp : PingAnswered b)
     (ops : List C11.Op)
     (hcalm : C11.Calm (C11.runOps (envOf b) C11.init ops))
@@ -134,21 +135,22 @@ theorem later_ping_answered (b : IrcBehaviour) (hb : OnlyExceptions b) (hp : Pin
     (hib : (C11.runOps (envOf b) C11.init ops).inbuffer = [])
     (l : C11.Bytes) (hl : C11.LF ∉ l) (m : C05.Msg) (hm : C11.lineMsg (envOf b) l = some m)
     (a : Str) (rest : List Str) (hcmd : asciiLower m.command = "ping".toList)
-    (hargs : m.args = a :: rest) (ha : C11.validArg a = true) :
+    (hargs : m.args = a :: rest) (ha : C11.validArg a = true)
+    (hnr : ∀ hist, b.reconnects hist m = none) :
     let w := C11.runOps (envOf b) C11.init ops
     let w' := C11.runOps (envOf b) w [.scriptRecv (.data (l ++ [C11.LF])), .loop]
     (∃ pre post, w'.wire = w.wire ++ pre ++ C11.utf8 (C05.format ⟨[], "PONG".toList, [a], []⟩) ++ post) ∧
     C11.Calm w' := by
   intro w w'
-  obtain ⟨hw, hc⟩ := ping_wire (no_escape b hb) w hcalm hr hib l hl m hm
+  obtain ⟨hw, hc⟩ := ping_wire (no_escape b hb) w hcalm hr hib l hl m hm hnr
   have e : w' = C11.loop (envOf b) (C11.step (envOf b) w (.scriptRecv (.data (l ++ [C11.LF])))) := by
     simp [w', C11.runOps, C11.step]
   rw [e]
   refine ⟨?_, hc⟩
-  obtain ⟨p1, p2, hp'⟩ := utf8_mem_infix _ _ (hp w.fed m a rest hcmd hargs ha)
+  obtain ⟨p1, p2, hp'⟩ := utf8_mem_infix _ _ (hp w.allFed m a rest hcmd hargs ha)
   refine ⟨w.outbuffer ++ C11.utf8 w.queue.flatten ++ p1, p2, ?_⟩
   rw [hw]
-  show w.wire ++ (w.outbuffer ++ C11.utf8 w.queue.flatten) ++ C11.utf8 (b.react w.fed m).flatten = _
+  show w.wire ++ (w.outbuffer ++ C11.utf8 w.queue.flatten) ++ C11.utf8 (b.react w.allFed m).flatten = _
   rw [hp']
   simp only [List.append_assoc]
 
